@@ -102,30 +102,46 @@ Definition status_class (r : hres) : nat :=
 
 (* ------------------------------------------------------------------ response side *)
 
-(* resp.media = v (setter), resp.text/data assignment, render_body().  Values are
-   identified by the index of the assignment that stored them; the serializer is invoked
-   with the current media and its result cached in _media_rendered. *)
-Inductive rop := SetMedia (v : option nat) | SetText (t : option nat) | SetData (d : option nat) | Render.
+(* resp.media = obj (setter), resp.text/data assignment, render_body(), and - outside falcon - the
+   application amending a media object IN PLACE.  A media object is identified by [o]; its
+   content is the number of in-place amendments it has received so far ([version]).  The
+   serializer is invoked with the current media object and sees the content it has at that
+   moment; the result is cached in _media_rendered until the next assignment to resp.media
+   (ANY assignment, also of the very same object).  Text/data values are identified by the index
+   of the assignment that stored them. *)
+Inductive rop :=
+| SetMedia (v : option nat) | SetText (t : option nat) | SetData (d : option nat) | Render
+| Mutate (o : nat).
+
+Definition version (muts : list nat) (o : nat) : nat := length (filter (Nat.eqb o) muts).
 
 Record pstate := {
   p_text : option nat; p_data : option nat; p_media : option nat;
-  p_rendered : option nat;          (* _media_rendered: Some v = serialize(v) cached *)
-  p_serializations : list nat       (* history of handler.serialize(v) calls, newest first *)
+  p_rendered : option (nat * nat);        (* _media_rendered: serialize(object o at version v) *)
+  p_serializations : list (nat * nat);    (* history of handler.serialize calls, newest first *)
+  p_muts : list nat                       (* in-place amendments so far (object ids) *)
 }.
 
 Definition pinit : pstate :=
-  {| p_text := None; p_data := None; p_media := None; p_rendered := None; p_serializations := [] |}.
+  {| p_text := None; p_data := None; p_media := None; p_rendered := None; p_serializations := [];
+     p_muts := [] |}.
 
-Inductive body := BNone | BText (t : nat) | BData (d : nat) | BMedia (v : nat).
+Inductive body := BNone | BText (t : nat) | BData (d : nat) | BMedia (o v : nat).
 
 Definition pstep (s : pstate) (o : rop) : pstate * option body :=
   match o with
   | SetMedia v => ({| p_text := p_text s; p_data := p_data s; p_media := v;
-                      p_rendered := None; p_serializations := p_serializations s |}, None)
+                      p_rendered := None; p_serializations := p_serializations s;
+                      p_muts := p_muts s |}, None)
   | SetText t => ({| p_text := t; p_data := p_data s; p_media := p_media s;
-                     p_rendered := p_rendered s; p_serializations := p_serializations s |}, None)
+                     p_rendered := p_rendered s; p_serializations := p_serializations s;
+                     p_muts := p_muts s |}, None)
   | SetData d => ({| p_text := p_text s; p_data := d; p_media := p_media s;
-                     p_rendered := p_rendered s; p_serializations := p_serializations s |}, None)
+                     p_rendered := p_rendered s; p_serializations := p_serializations s;
+                     p_muts := p_muts s |}, None)
+  | Mutate x => ({| p_text := p_text s; p_data := p_data s; p_media := p_media s;
+                    p_rendered := p_rendered s; p_serializations := p_serializations s;
+                    p_muts := x :: p_muts s |}, None)
   | Render =>
     match p_text s with
     | Some t => (s, Some (BText t))
@@ -135,12 +151,15 @@ Definition pstep (s : pstate) (o : rop) : pstate * option body :=
       | None =>
         match p_media s with
         | None => (s, Some BNone)
-        | Some v =>
+        | Some x =>
           match p_rendered s with
-          | Some r => (s, Some (BMedia r))
-          | None => ({| p_text := None; p_data := None; p_media := Some v;
-                        p_rendered := Some v; p_serializations := v :: p_serializations s |},
-                     Some (BMedia v))
+          | Some (x', v') => (s, Some (BMedia x' v'))
+          | None =>
+            let v := version (p_muts s) x in
+            ({| p_text := None; p_data := None; p_media := Some x;
+                p_rendered := Some (x, v); p_serializations := (x, v) :: p_serializations s;
+                p_muts := p_muts s |},
+             Some (BMedia x v))
           end
         end
       end
